@@ -607,9 +607,7 @@ def h_text(ctx, afi, kind, nops):
     return (line, r)
 
 
-def h_text_actions(ctx):
-    """'then' side of a flow route: text -> extended community octets (RFC 8955 section 7)."""
-    Tokeniser, route = flow_route_parser()
+def _action_cases():
     cases = (
         ('discard', O.action_traffic_rate_bytes(0, _struct.pack('!f', 0.0))),
         ('rate-limit 9600', O.action_traffic_rate_bytes(0, _struct.pack('!f', 9600.0))),
@@ -626,16 +624,57 @@ def h_text_actions(ctx):
         ('action terminal', O.action_traffic_action(0, 1)),
         ('action sample-terminal', O.action_traffic_action(1, 1)),
     )
-    text, want = cases[ctx.choice('case', len(cases))]
+    return cases
+
+
+def _parse_action(text):
+    Tokeniser, route = flow_route_parser()
     tok = Tokeniser().replenish(('destination-port =80 ' + text).split())
     tok.afi = AFI.ipv4
-    r = route(tok)[0]
+    return route(tok)[0]
+
+
+def h_text_actions(ctx):
+    """'then' side of a flow route: text -> extended community octets (RFC 8955 section 7)."""
+    cases = _action_cases()
+    text, want = cases[ctx.choice('case', len(cases))]
+    r = _parse_action(text)
     ecs = r.attributes[16]
     got = bytes(ecs._packed)
     ctx.cover(text.split()[0])
     ctx.check('action-octets', got == bytes(want), sig='C16:actions:text:%s' % text.split()[0], info={'text': text, 'got': got, 'want': bytes(want)})
     ctx.check('match-side', bytes(r.nlri.pack_nlri(None)) == bytes([3, 5, 0x81, 80]), sig='C16:actions:text:match-side')
     return (text, got.hex())
+
+
+def _communities(octets):
+    octets = bytes(octets)
+    return sorted(octets[i:i + 8] for i in range(0, len(octets), 8))
+
+
+def h_text_actions_sequence(ctx):
+    """Three definitions parsed one after the other in one process: one action alone, then the same action followed by
+    a second action in the same definition, then the first text again.  Each definition carries the communities
+    written for IT: the set of 8-octet communities of the second is the union of the two, the third is encoded like
+    the first, and the first route object still encodes as it did when it was accepted."""
+    cases = _action_cases()
+    i = ctx.choice('first', len(cases))
+    j = ctx.choice('second', len(cases))
+    (t1, w1), (t2, w2) = cases[i], cases[j]
+    ctx.assume(t1.split()[0] != t2.split()[0])       # one keyword twice in a definition is not what this unit is about
+    a = _parse_action(t1)
+    before = bytes(a.attributes[16]._packed)
+    both = _parse_action(t1 + ' ' + t2)
+    c = _parse_action(t1)
+    k = '%s+%s' % (t1.split()[0], t2.split()[0])
+    ctx.cover(t1.split()[0])
+    ctx.check('two-actions-octets', _communities(both.attributes[16]._packed) == sorted([bytes(w1), bytes(w2)]),
+              sig='C16:actions:sequence:%s:both' % k, info={'text': t1 + ' ' + t2, 'got': bytes(both.attributes[16]._packed)})
+    ctx.check('later-definition-octets', bytes(c.attributes[16]._packed) == bytes(w1),
+              sig='C16:actions:sequence:%s:later-definition' % k, info={'first': t1 + ' ' + t2, 'then': t1, 'got': bytes(c.attributes[16]._packed), 'want': bytes(w1)})
+    ctx.check('earlier-definition-unchanged', bytes(a.attributes[16]._packed) == before == bytes(w1),
+              sig='C16:actions:sequence:%s:earlier-definition' % k, info={'text': t1, 'before': before, 'after': bytes(a.attributes[16]._packed)})
+    return (t1, t2, bytes(both.attributes[16]._packed).hex())
 
 
 # ----------------------------------------------------------------------------- actions (symbolic fields)
@@ -778,5 +817,6 @@ def units(tier):
                        must_cover=('parsed', 'bracket', 'bare', 'and', 'prefix', 'width-1', 'comp:tcp-flags', 'comp:fragment') + tuple('spell:' + sp for sp, _ in BIN_SPELL),
                        weight=1000 if th else 200, max_seconds=T, max_paths=400000))
     us.append(Unit('actions/text', h_text_actions, must_cover=('discard', 'rate-limit', 'redirect', 'mark', 'action'), weight=10))
+    us.append(Unit('actions/text/sequence', h_text_actions_sequence, must_cover=('discard', 'rate-limit', 'redirect', 'mark', 'action'), weight=10))
     us.append(Unit('actions/fields', h_action, must_cover=('built', 'discard', 'sample', 'terminal', 'no-sample', 'no-terminal') + ACTIONS, weight=10))
     return us
